@@ -30,10 +30,12 @@ fn main() {
         Some("wire-ser") => service::wire_ser(&args[1..]),
         Some("amz-date") => service::amz_date(&args[1..]),
         Some("secret") => secret::run(),
+        Some("secret-log") => secret::log(),
         Some("sigv4") => sigv4::one(&args[1..]),
         Some("sigv4-header-value") => sigv4::header_value(&args[1..]),
         Some("chunked") => sigv4::chunked(&args[1..]),
         Some("sigv2") => sigv4::v2(&args[1..]),
+        Some("sigv2-presigned") => sigv4::v2_presigned(&args[1..]),
         Some("post-form") => sigv4::post_form(&args[1..]),
         Some("sigv4-tamper") => sigv4::tamper(),
         Some("sigv4-search") => sigv4::search(),
